@@ -228,6 +228,9 @@ func (o Op) String() string {
 		sb.WriteString(")")
 	case KPathData, KMDPath:
 		fmt.Fprintf(&sb, "(%q adj=%d)", o.S, o.U)
+		if o.F[0] != 0 {
+			fmt.Fprintf(&sb, " transform(scale %s, translate %s %s)", fstr(o.F[0]), fstr(o.F[1]), fstr(o.F[2]))
+		}
 	case KSetHiRes:
 		fmt.Fprintf(&sb, "%t", o.Incr)
 	default:
